@@ -221,6 +221,20 @@ func (rt *runtime) panicRangeError(argumentList ...interface{}) *exception {
 	}
 }
 
+// safeString is Value.string for the recover boundary: the script's own
+// toString/valueOf may throw, and that must not leave catchPanic as a panic.
+func (v Value) safeString() (str string) {
+	defer func() {
+		if r := recover(); r != nil {
+			if _, ok := r.(*exception); !ok {
+				panic(r)
+			}
+			str = "uncaught exception: value cannot be converted to a string"
+		}
+	}()
+	return v.string()
+}
+
 func catchPanic(function func()) (err error) {
 	defer func() {
 		if caught := recover(); caught != nil {
@@ -241,7 +255,7 @@ func catchPanic(function func()) (err error) {
 						return
 					}
 				}
-				err = errors.New(caught.string())
+				err = errors.New(caught.safeString())
 				return
 			}
 			panic(caught)
